@@ -9,24 +9,28 @@ import Nervus.Spec.Graph
 namespace Nervus.Storage
 open Nervus.GraphSpec (TxOp Op)
 
+/-- the label id a `node` write passes to `create_node` (and the engine after interning it) -/
+def internLabel (s : Engine) : Option Nat → Engine × Nat
+  | some l => s.getOrCreateLabel l
+  | none => (s, labelMax)
+
 /-- one staged write: intern the names, call the WriteTxn method -/
 def stepTx (c : Cfg) (st : Engine × Txn) : TxOp → Engine × Txn
   | .node x lab =>
-    let (s, lid) := match lab with
-      | some l => st.1.getOrCreateLabel l
-      | none => (st.1, labelMax)
-    match st.2.createNode s x lid with
-    | some (t, _) => (s, t)
-    | none => (s, st.2)
-  | .labelAdd n l => let (s, lid) := st.1.getOrCreateLabel l; (s, st.2.addNodeLabel n lid)
-  | .labelDel n l => let (s, lid) := st.1.getOrCreateLabel l; (s, st.2.removeNodeLabel n lid)
-  | .edge a t b => let (s, r) := st.1.getOrCreateLabel t; (s, st.2.createEdge ⟨a, r, b⟩)
+    match st.2.createNode (internLabel st.1 lab).1 x (internLabel st.1 lab).2 with
+    | some r => ((internLabel st.1 lab).1, r.1)
+    | none => ((internLabel st.1 lab).1, st.2)
+  | .labelAdd n l => ((st.1.getOrCreateLabel l).1, st.2.addNodeLabel n (st.1.getOrCreateLabel l).2)
+  | .labelDel n l => ((st.1.getOrCreateLabel l).1, st.2.removeNodeLabel n (st.1.getOrCreateLabel l).2)
+  | .edge a t b => ((st.1.getOrCreateLabel t).1, st.2.createEdge ⟨a, (st.1.getOrCreateLabel t).2, b⟩)
   | .tombNode n => (st.1, st.2.tombstoneNode n)
-  | .tombEdge a t b => let (s, r) := st.1.getOrCreateLabel t; (s, st.2.tombstoneEdge ⟨a, r, b⟩)
+  | .tombEdge a t b => ((st.1.getOrCreateLabel t).1, st.2.tombstoneEdge ⟨a, (st.1.getOrCreateLabel t).2, b⟩)
   | .nprop n k v => (st.1, st.2.setNodeProp n k v)
   | .npropDel n k => (st.1, st.2.removeNodeProp n k)
-  | .eprop a t b k v => let (s, r) := st.1.getOrCreateLabel t; (s, st.2.setEdgeProp ⟨a, r, b⟩ k v)
-  | .epropDel a t b k => let (s, r) := st.1.getOrCreateLabel t; (s, st.2.removeEdgeProp ⟨a, r, b⟩ k)
+  | .eprop a t b k v =>
+    ((st.1.getOrCreateLabel t).1, st.2.setEdgeProp ⟨a, (st.1.getOrCreateLabel t).2, b⟩ k v)
+  | .epropDel a t b k =>
+    ((st.1.getOrCreateLabel t).1, st.2.removeEdgeProp ⟨a, (st.1.getOrCreateLabel t).2, b⟩ k)
   | .vec n v => st.2.setVector c st.1 n v
 
 /-- begin_write, the staged writes, then commit or drop -/
